@@ -27,6 +27,7 @@ ASSUMPTIONS = [
     "per-branch clock rates and directly supplied branch lengths are re-indexed for each member through the documented index convention (leaf = position in the taxa list, internal nodes in post-order)",
 ]
 BUDGET = {"quick": 75, "thorough": 900}
+ROUNDS = {"thorough": 8}
 FLOORS = {"pairs_compared": {"quick": 1500, "thorough": 15000}, "rerootings": {"quick": 200, "thorough": 2000},
           "relations": 8}
 
